@@ -325,6 +325,25 @@ class DictObj:
 
 DICT_OBJ = DictObj(alpha=1, beta=[1, 2], gamma='g')
 
+NEW_CALLS = []
+
+
+class DictObjNew(DictObj):
+  """Dict-based object whose class has a __new__ of its own (required parameter, side effect)."""
+
+  def __new__(cls, token, **kw):
+    NEW_CALLS.append(token)
+    return super().__new__(cls)
+
+  def __init__(self, token, **kw):
+    super().__init__(token=token, **kw)
+
+  def __repr__(self):
+    return f'DictObjNew({self.__dict__!r})'
+
+
+DICT_OBJ_NEW = DictObjNew('tok', n=[3])
+
 LAMBDA = lambda: None  # unserializable on purpose  pylint: disable=unnecessary-lambda-assignment
 
 CANARY_CALLS = []
@@ -493,4 +512,26 @@ def make_method_class():
 
   Meth.__module__ = __name__
   return Meth
+
+
+class MainOuter:
+  """Stands for objects defined in the running script: __module__ is '__main__' and generated
+  code refers to them by bare (dotted) qualname; the names are made resolvable via builtins."""
+
+  class Inner(_VObj):
+
+    def __init__(self, x=None, y=None, child=None):
+      self.__vrec__ = record('MainOuter.Inner', {'x': x, 'y': y, 'child': child})
+
+
+def main_fn(x=None, y=None, child=None):
+  return record('main_fn', {'x': x, 'y': y, 'child': child})
+
+
+MainOuter.__module__ = '__main__'
+MainOuter.Inner.__module__ = '__main__'
+main_fn.__module__ = '__main__'
+import builtins as _builtins  # pylint: disable=g-import-not-at-top
+_builtins.MainOuter = MainOuter
+_builtins.main_fn = main_fn
 
